@@ -167,7 +167,15 @@ class DB:
 
 # ---------------------------------------------------------------------------------------------
 class Result:
-    def __init__(self, prop, tier, level='other'):
+    def __init__(self, prop, tier, level=None):
+        if level is None:
+            # the level recorded in the evidence is the category claimed for the property in MANIFEST.json
+            level = 'other'
+            try:
+                for c in json.load(open(os.path.join(VERIF, 'MANIFEST.json')))['checks']:
+                    if c['property_id'] == prop: level = c['level_claimed']['category']
+            except Exception:
+                pass
         self.prop = prop; self.tier = tier; self.level = level
         self.t0 = time.time()
         self.obligations = 0; self.discharged = 0
@@ -225,7 +233,7 @@ class Result:
             for b in self.broken:
                 print('ANALYSIS-BROKEN property=%s: %s' % (self.prop, b))
             code = 2
-        rdir = os.path.join(VERIF, 'replays') if REPO == '/repo' else os.path.join(CACHE, 'replays-scratch')
+        rdir = os.path.join(VERIF, 'replays') if (REPO == '/repo' and not os.environ.get('VERIF_SCRATCH')) else os.path.join(CACHE, 'replays-scratch')
         os.makedirs(rdir, exist_ok=True)
         for i, v in enumerate(out_viol):
             path = os.path.join(rdir, '%s-%d.json' % (self.prop, i + 1))
@@ -255,7 +263,7 @@ class Result:
             'level': self.level, 'coverage': cov, 'assumptions': self.assumptions,
             'wall_s': round(wall, 2), 'violations': len(out_viol),
         }
-        evdir = os.path.join(VERIF, 'evidence') if REPO == '/repo' else os.path.join(CACHE, 'evidence-scratch')   # runs against a scratch tree never touch the committed evidence
+        evdir = os.path.join(VERIF, 'evidence') if (REPO == '/repo' and not os.environ.get('VERIF_SCRATCH')) else os.path.join(CACHE, 'evidence-scratch')   # runs against a scratch tree never touch the committed evidence
         os.makedirs(evdir, exist_ok=True)
         with open(os.path.join(evdir, self.prop + '.json'), 'w') as fh:
             json.dump(ev, fh, indent=1, default=str)
